@@ -110,7 +110,7 @@ VARIABLES
     flags,      \* [stopped, stopping, aborted, aborting, inClosed, reqClosed]
     err,        \* s.err: the first error, NIL if none
     writer,     \* [pc : select | write | done, buf, inNil, reqNil, begin]
-    toAgent,    \* [q, closed]
+    toAgent,    \* [q, closed, stray : requests in it that udf.Server did not write]
     agent,      \* [seen, restored, faulted, fkind, alive]
     fromAgent,  \* [q, closed]
     reader,     \* [pc : read | got | out | done, msg, hasBegin/begin (s.begin), inBatch/points (s.points), pend]
@@ -133,7 +133,7 @@ Init ==
     /\ flags = [stopped |-> FALSE, stopping |-> FALSE, aborted |-> FALSE, aborting |-> FALSE, inClosed |-> FALSE, reqClosed |-> FALSE]
     /\ err = NIL
     /\ writer = [pc |-> "select", buf |-> <<>>, inNil |-> FALSE, reqNil |-> FALSE, begin |-> NIL]
-    /\ toAgent = [q |-> <<>>, closed |-> FALSE]
+    /\ toAgent = [q |-> <<>>, closed |-> FALSE, stray |-> 0]
     /\ agent = [seen |-> 0, restored |-> NIL, faulted |-> FALSE, fkind |-> NIL, alive |-> TRUE]
     /\ fromAgent = [q |-> <<>>, closed |-> FALSE]
     /\ reader = [pc |-> "read", msg |-> NIL, hasBegin |-> FALSE, begin |-> NIL, inBatch |-> FALSE, points |-> <<>>, pend |-> NIL]
@@ -313,12 +313,30 @@ AStep ==
                   \/ /\ "close" \in Faults /\ ~agent.faulted     \* the peer goes away at a frame boundary
                      /\ fromAgent' = [fromAgent EXCEPT !.closed = TRUE]
                      /\ agent' = [agent EXCEPT !.seen = @ + 1, !.faulted = TRUE, !.fkind = "close", !.alive = FALSE]
-          ELSE /\ Len(fromAgent.q) < PipeCap
-               /\ fromAgent' = [fromAgent EXCEPT !.q = Append(@, AResp(w))]
-               /\ agent' = IF w.t = "restore" THEN [agent EXCEPT !.restored = w.data] ELSE agent
-               /\ UNCHANGED wireSeen
+          ELSE IF w.t = "empty"
+               \* a frame without a body decodes to a Request without a message: readLoop's switch has no case for
+               \* it - nothing is handed to the handler, nothing is answered (in particular NOT the previous request
+               \* again: ReadMessage decodes into one reused Request value and must reset it)
+               THEN UNCHANGED <<fromAgent, agent, wireSeen>>
+               ELSE /\ Len(fromAgent.q) < PipeCap
+                    /\ fromAgent' = [fromAgent EXCEPT !.q = Append(@, AResp(w))]
+                    /\ agent' = IF w.t = "restore" THEN [agent EXCEPT !.restored = w.data] ELSE agent
+                    /\ UNCHANGED wireSeen
     /\ UNCHANGED <<pump, caller, results, stopper, stopRet, outs, outClosed, owner, mu, want, flags, err, writer,
                    reader, kaBuf, respC, ticker, watcher, crashed, diag>>
+\* a request udf.Server itself never writes shows up in the agent's input between two frames: an empty one
+\* ("emptyReq") or one more keepalive request ("extraKeepalive").  The agent has ONE writer goroutine: whatever it
+\* answers is queued behind the responses already handed to that writer, frames never interleave (fromAgent is a
+\* FIFO of whole messages; the byte level of that direction is checked against UDFFraming by the Wire lines).
+Stray(kind) ==
+    /\ agent.alive /\ ~toAgent.closed /\ Len(toAgent.q) < PipeCap
+    /\ toAgent' = [toAgent EXCEPT !.q = Append(@, [t |-> kind]), !.stray = @ + 1]
+    /\ UNCHANGED <<pump, caller, results, stopper, stopRet, outs, outClosed, owner, mu, want, flags, err, writer,
+                   agent, fromAgent, reader, kaBuf, respC, ticker, watcher, crashed, diag, wireSeen>>
+StrayMC ==
+    /\ toAgent.stray < 1
+    /\ \/ "emptyReq" \in Faults /\ Stray("empty")
+       \/ "extraKeepalive" \in Faults /\ Stray("keepalive")
 \* the peer dies (process killed, connection reset) at an arbitrary moment: both directions are gone
 AgentDies ==
     /\ "die" \in Faults /\ agent.alive
@@ -535,7 +553,7 @@ Internal(c, active) ==
     \/ PumpSeesAbort
     \/ (active /\ (CallEnter(c) \/ CallAborted(c) \/ CallReturn(c) \/ CallReaderGone(c) \/ WTakeCall(c)))
     \/ WTakeIn \/ WInClosed \/ WTakeTick \/ WReqClosed \/ WExit \/ WAborting \/ WWrite
-    \/ AStep \/ AEOF \/ AgentDies
+    \/ AStep \/ AEOF \/ AgentDies \/ StrayMC
     \/ RRead \/ RHandle \/ ROut \/ ROutAborted
     \/ Tick \/ TickAborted \/ TickStop \/ WatchFeed \/ WatchStop \/ WatchTimeout
     \/ LockStop \/ (\E g \in want : LockAbort(g) \/ SignalAbort(g)) \/ A1 \/ A2 \/ A3 \/ S1 \/ S2 \/ S3
@@ -570,7 +588,8 @@ TypeOK ==
 NoProcessCrash == ~crashed
 
 \* messages out = messages in: order, batch boundaries, every header field and every typed field
-EchoIdentity == Faults = {} => IsPrefix(outs, Expected(SubSeq(Feed, 1, pump.i)))
+Benign == {"emptyReq", "extraKeepalive"}     \* requests the agent must ignore / answer without any effect on the data
+EchoIdentity == Faults \subseteq Benign => IsPrefix(outs, Expected(SubSeq(Feed, 1, pump.i)))
 
 \* the peer receives the data in order, each field in the map of its type (what WireOf says), nothing else
 WireIdentity ==
@@ -581,7 +600,7 @@ WireIdentity ==
 
 \* a graceful Stop (no error) delivers everything that was handed over, then closes Out()
 StopDrains ==
-    (stopRet = "ok" /\ Faults = {}) => outClosed /\ outs = Expected(SubSeq(Feed, 1, pump.i)) /\ reader.pc = "done"
+    (stopRet = "ok" /\ Faults \subseteq Benign) => outClosed /\ outs = Expected(SubSeq(Feed, 1, pump.i)) /\ reader.pc = "done"
 
 \* Out() is closed only after the last message
 ClosedIsFinal == outClosed => reader.pc = "done"
